@@ -308,8 +308,34 @@ PROPS["C17"] = dict(
     design="DESIGN.md §4 C17",
 )
 
+PROPS["C14"] = dict(
+    technique="static analysis: keyword-argument provenance (def-use/taint) at the planner call, path enumeration over the stage loop with the last-stage test decided as a linear form, sibling agreement of the two consumers of the stage generator, loop-boundedness and recursion-guard rules over the call-graph closure of the planning code",
+    text=(
+        "Narrow claim: the plumbing around the rechunk planners, not their arithmetic. Decides that _rechunk_plan hands the "
+        "planner the operand's own chunking as source, the requested chunking as target, the operand's shape and item size, "
+        "and a budget (allowed_mem - reserved_mem) // (number of chunk copies incl. read and write buffer copies); that with "
+        "allow_irregular=False the stages come from the regular planner; that on every path through the stage loop the "
+        "closing copy of the last stage is written with the *requested* chunking (the last-stage test is checked to be "
+        "index == len(stages) - 1 as a linear form) and a stage's read / intermediate / write chunkings keep their roles; "
+        "that rechunk (which executes the stages) and rechunk_plan (which reports them) forward the same arguments to the "
+        "same generator and pass each (copy, target) pair to the copy constructor in that order; that the regular copy "
+        "path stores with the chunks asked for; that the regular planner re-aligns its copy chunks for every stage count "
+        "tried and the irregular storage grid is the common refinement of copy and target grids (RECHUNK-GRID-1); and that "
+        "every loop reachable from the planning entry points iterates a finite collection its body does not grow, no "
+        "`while` loop can go round without changing what its exit tests read, and the only recursion (multspace) is an "
+        "exchange of two arguments under a strict comparison. These hold for every geometry because they are facts about "
+        "which value flows where, not about the values."
+    ),
+    note=(
+        "Does NOT decide the planner's integer arithmetic: that consolidate_chunks stays within max_mem, that geometric "
+        "intermediate chunks fit the budget, that _fix_copy_chunks' rounding yields multiples, that the search returns "
+        "before MAX_STAGES, or that values are preserved. Those clauses quantify over an unbounded geometry domain and need "
+        "enumeration or a solver (other families). Termination is decided as 'no unbounded loop construct', which is "
+        "sufficient for the loops present (all `for` over finite sequences)."
+    ),
+    design="DESIGN.md §4 C14 (revised in §11.9)",
+)
+
 CLAIMED = sorted(PROPS)
 
-NOT_APPLICABLE = {
-    "C14": "all clauses are integer-arithmetic facts over an unbounded geometry domain (geomspace/floor/lcm rounding); no shape-of-code clause is a necessary condition; needs solver/proof/enumeration families (DESIGN.md §4 C14, §6)",
-}
+NOT_APPLICABLE: dict = {}
